@@ -584,6 +584,11 @@ class OrderedMultiDict(MultiDict[_K, _T]):
                 return False
         return True
 
+    def __ne__(self, other: object) -> bool:
+        # dict.__ne__ would compare the raw buckets, which never compare equal
+        eq = self.__eq__(other)
+        return eq if eq is NotImplemented else not eq
+
     __hash__ = None
 
     def __reduce_ex__(
